@@ -254,12 +254,15 @@ def cmd_text(ws, l):
             L.append('rm -rf ' + D + '"; mkdir -p ' + D + '/sub"')
             L.append("{ " + hdr + '; cat "$c"; } > ' + D + '/a.txt"')
             L.append("{ " + hdr + '; cat "$c"; printf \'+\\n\'; } > ' + D + '/sub/b.txt"')
+            L.append(': > ' + D + '/empty.txt"')
             L.append('ln -s a.txt ' + D + '/link"')
             L.append('if [ -s "$c.l" ]; then mkdir -p ' + D + '/in"; fi')
             L.append('while IFS= read -r f; do cat "$f" > ' + D + '/in/$(printf \'%s\' "' + pre + '$f" | tr / _)"; done < "$c.l"')
         else:
             L.append('mkdir -p "$(dirname "$W/' + p + '")"')
             normal = "{ " + hdr + '; cat "$c"; } > "$W/' + p + '"'
+            if p.endswith(".empty"):
+                normal = ': > "$W/' + p + '"'         # a stamp: legitimately empty output
             if t.get("split"):
                 # splitter: output k is a copy of input (k mod n); the order of outputs is the canonical (sorted) one
                 L.append('if [ "$n" -gt 0 ]; then f=$(sed -n "$(( ' + str(k) + ' % n + 1 ))p" "$c.l"); { printf \'S\\n\'; cat "$f"; } > "$W/' + p +
@@ -719,7 +722,7 @@ def compare(hist, real, model, multiset=True):
 # ------------------------------------------------------------------------------------------------
 
 def gen_ws(rng, n=None, aliases=True, dirs=True, multi_out=True, nocache_p=0.0, checks_p=0.0, split_p=0.1, shared_p=0.25, dir_p=0.3,
-           outless_p=0.08, tool_p=0.0, multicheck=False, alias_p=0.35, alias2_p=0.2, link_p=0.5, kind_choices=None):
+           outless_p=0.08, tool_p=0.0, multicheck=False, alias_p=0.35, alias2_p=0.2, link_p=0.5, kind_choices=None, stamp_p=0.2):
     """layered DAG of n targets (dependencies point to earlier targets), 1-2 targets per package"""
     n = n or rng.randint(2, 6)
     ws = {"targets": {}, "aliases": {}, "files": {}, "links": {}}
@@ -782,6 +785,8 @@ def gen_ws(rng, n=None, aliases=True, dirs=True, multi_out=True, nocache_p=0.0, 
                 outs.append({"dir": False, "rel": "o%d_b.txt" % i})
             if dirs and rng.random() < dir_p:
                 outs.append({"dir": True, "rel": "dist%d" % i})
+            if rng.random() < stamp_p:
+                outs.append({"dir": False, "rel": "done%d.empty" % i})
         t = {"pkg": pkg, "name": name, "globs": globs, "excl": excl, "salt": "s%d" % rng.randint(0, 9), "deps": deps,
              "outs": outs, "fp": {}, "nocache": rng.random() < nocache_p, "checks": [], "beh": 0, "skip": [], "sets": []}
         if rng.random() < 0.15:
@@ -948,7 +953,7 @@ def gen_edit(rng, ws, kinds=None):
             d = resolve_alias(ws, a)
             s = src_files_of(ws, d)
             if s:
-                p = rng.choice(s)
+                p = real_path(ws, rng.choice(s))
                 ws["files"][p] = "z%d\n" % rng.randint(100, 999)
                 return ws, [], "content of %s (reaches %s only through alias %s)" % (p, x, a)
             ws["targets"][d]["salt"] = "s%d" % rng.randint(100, 199)
@@ -980,7 +985,7 @@ def gen_edit(rng, ws, kinds=None):
         if not sp:
             return None
         x = rng.choice(sp)
-        fsx = src_files_of(ws, x)
+        fsx = [real_path(ws, y) for y in src_files_of(ws, x)]
         if len(fsx) < 2 or ws["files"][fsx[0]] == ws["files"][fsx[1]]:
             return None
         ws["files"][fsx[0]], ws["files"][fsx[1]] = ws["files"][fsx[1]], ws["files"][fsx[0]]
@@ -1093,7 +1098,7 @@ def gen_tamper(rng, ws, kinds=("delete", "modify", "rmdir", "moddir", "extradir"
 def shift_pair(rng, ws):
     """adversarial: move bytes from the end of one input file to the start of the next one of the same target"""
     for l in sorted(ws["targets"]):
-        s = src_files_of(ws, l)
+        s = [x for x in src_files_of(ws, l) if x in ws["files"]]
         if len(s) >= 2:
             a, b = s[0], s[1]
             ws2 = copy.deepcopy(ws)
@@ -1149,6 +1154,20 @@ def gen_history(rng, family="mixed", nsteps=None, full=False, minimal=None):
                 ws["aliases"][a1] = d
                 ws["aliases"][a2] = a1
                 ws["targets"][x]["deps"] = [y for y in ws["targets"][x]["deps"] if resolve_alias(ws, y) != d and y != d] + [a2]
+    if family == "samehash":
+        order = sorted(ws["targets"], key=lambda x: int(ws["targets"][x]["name"][1:]))
+        top = order[-1]
+        base = len(order)
+        for j in range(3):
+            name = "t%d" % (base + j)
+            pkg = "g%d" % j
+            ws["files"]["%s/e%d.txt" % (pkg, base + j)] = "v%d\n" % rng.randint(0, 99)
+            ws["targets"][lab(pkg, name)] = {"pkg": pkg, "name": name, "globs": ["e%d.txt" % (base + j)], "excl": [], "salt": "s1", "deps": [],
+                                            "outs": [], "fp": {}, "nocache": True, "checks": [], "beh": 0, "skip": [], "sets": []}
+        ws["targets"][top]["deps"] += [lab("g0", "t%d" % base), lab("g1", "t%d" % (base + 1))]
+        ws["targets"][top]["nocache"] = False
+        if not ws["targets"][top]["outs"]:
+            ws["targets"][top]["outs"] = [{"dir": False, "rel": "o%s.txt" % ws["targets"][top]["name"][1:]}]
     if family == "lostblob":
         # a chain e <- d <- x (all cached, file outputs): the blob of d's output will be lost
         order = sorted(ws["targets"], key=lambda x: int(ws["targets"][x]["name"][1:]))
@@ -1218,6 +1237,28 @@ def gen_history(rng, family="mixed", nsteps=None, full=False, minimal=None):
         return hist
     for _ in range(n):
         r = rng.random()
+        if family == "samehash" and r < 0.7:
+            # add / remove ONE of several dependencies whose output hashes are equal (output-less no-cache targets)
+            gs = sorted(x for x in cur["targets"] if cur["targets"][x]["pkg"].startswith("g") and not cur["targets"][x]["outs"])
+            tops = [x for x in sorted(cur["targets"]) if any(d in gs for d in cur["targets"][x]["deps"])]
+            if gs and tops:
+                x = tops[0]
+                e2 = copy.deepcopy(cur)
+                have = [d for d in e2["targets"][x]["deps"] if d in gs]
+                missing = [d for d in gs if d not in have]
+                if missing and (len(have) <= 1 or rng.random() < 0.5):
+                    d = rng.choice(missing)
+                    e2["targets"][x]["deps"].append(d)
+                    what = "add edge %s -> %s (output hash equal to another dependency's)" % (x, d)
+                else:
+                    d = rng.choice(have)
+                    e2["targets"][x]["deps"].remove(d)
+                    what = "remove edge %s -> %s (output hash equal to another dependency's)" % (x, d)
+                hist["steps"].append({"k": "edit", "ws": e2, "writes": [], "what": what})
+                cur = e2
+                versions.append(cur)
+                build(["//..."])
+                continue
         if family == "revert":
             # edit / revert chains over one cache (>= 5 builds): an earlier state comes back after other states were built,
             # with cache-disabled builds in between
